@@ -202,6 +202,9 @@ func (g *c02Gen) list(depth int) *term.Term {
 		return term.PL(g.v(), es...)
 	}
 	n := g.r.Intn(5)
+	if g.r.Intn(6) == 0 {
+		n = 4 + g.r.Intn(5) // longer lists: slices that grow have spare capacity
+	}
 	es := make([]*term.Term, n)
 	for i := range es {
 		es[i] = g.term(depth - 1)
@@ -1002,6 +1005,7 @@ type c02Builder struct {
 	r      *rand.Rand
 	dq     string
 	goals  []string
+	post   []string // goals run after the built pair was observed once; it is then observed again
 	late   []c02Late
 	nh     int
 	inputs []*term.Term
@@ -1149,7 +1153,10 @@ func (b *c02Builder) listExpr(t *term.Term) string {
 		if proper && c02All(es, c02IsCode) {
 			opts = append(opts, opt{"atom_codes", 45})
 		}
-		opts = append(opts, opt{"append", 22}, opt{"univ_cons", 8}, opt{"bar_split", 14})
+		opts = append(opts, opt{"append", 22}, opt{"append_chain", 12}, opt{"univ_cons", 8}, opt{"bar_split", 14})
+		if n >= 4 && proper {
+			opts = append(opts, opt{"append_chain", 40})
+		}
 		if proper {
 			opts = append(opts, opt{"length", 10})
 			if n == 1 && (es[0].K == term.KAtom || es[0].K == term.KInt || es[0].K == term.KFloat) ||
@@ -1222,6 +1229,50 @@ func (b *c02Builder) listExpr(t *term.Term) string {
 		s := b.expr(term.PL(tail, es[k:]...))
 		h := b.fresh()
 		b.goals = append(b.goals, fmt.Sprintf("append(%s, %s, %s)", p, s, h))
+		return h
+	case "append_chain":
+		// the prefix is itself a result of append/3 or findall/3, and it is extended three times in the same proof:
+		// by a decoy, by the wanted rest, by another decoy. A delivered list is a term like any other and stays what it is.
+		// (short rests and one-element second parts are preferred: a Go slice that grew by one element has spare room
+		// for a short rest, which is when an implementation might be tempted to extend it in place)
+		k := 1 + b.r.Intn(n)
+		j := b.r.Intn(k + 1)
+		plainRest := false
+		if n >= 4 && proper && b.r.Intn(4) != 0 {
+			// a prefix that grew by one element to k elements has room for k-2 more
+			lo := (n + 3) / 2
+			k = lo + b.r.Intn(n-lo)
+			j = k - 1
+			plainRest = b.r.Intn(3) != 0
+			b.ctors["append_chain_roomy"]++
+		}
+		b.noLate++
+		h0 := b.fresh()
+		if b.r.Intn(3) == 0 {
+			// findall/3 copies: the copy is unified with the original elements afterwards
+			e := b.fresh()
+			l0 := b.bracket(es[:k], "")
+			b.goals = append(b.goals, fmt.Sprintf("findall(%s, c02_mem(%s, %s), %s)", e, e, l0, h0))
+			if !c02Ground(term.L(es[:k]...)) {
+				b.goals = append(b.goals, fmt.Sprintf("%s = %s", h0, l0))
+			}
+		} else {
+			p1 := b.expr(term.L(es[:j]...))
+			p2 := b.expr(term.L(es[j:k]...))
+			b.goals = append(b.goals, fmt.Sprintf("append(%s, %s, %s)", p1, p2, h0))
+		}
+		b.noLate--
+		var s string
+		if plainRest {
+			s = b.bracket(es[k:], "")
+		} else {
+			s = b.expr(term.PL(tail, es[k:]...))
+		}
+		h := b.fresh()
+		b.goals = append(b.goals, fmt.Sprintf("append(%s, [c02_decoy_a], %s)", h0, b.fresh()))
+		b.goals = append(b.goals, fmt.Sprintf("append(%s, %s, %s)", h0, s, h))
+		b.post = append(b.post, fmt.Sprintf("append(%s, [c02_decoy_b], %s)", h0, b.fresh()))
+		b.post = append(b.post, fmt.Sprintf("append(%s, [c02_decoy_c, c02_decoy_d], %s)", h0, b.fresh()))
 		return h
 	case "univ_cons":
 		e := b.expr(es[0])
@@ -1429,8 +1480,13 @@ func c02PairItem(a, b *term.Term, nv int, family string, r *rand.Rand, thorough 
 		vsText := term.Text(term.L(vl...), c02VarName)
 		// One plain conjunction: nothing built here passes through call/N (which would re-build, i.e.
 		// normalise, the terms); the catch/3 is entered while every variable is still unbound.
-		q := fmt.Sprintf("catch((%s, verif_out(built, t(%d, %s, %s, %s)), c02_variant(%s, %d, %s)), E, verif_out(err, e(%d, E))), fail.",
-			strings.Join(goals, ", "), k, c02VarName(c02IdTA), c02VarName(c02IdTB), vsText, argText[0], k, strings.Join(argText[1:], ", "), k)
+		again := ""
+		if len(bd.post) > 0 {
+			// the same list prefixes are extended again by other goals; the built pair must still be what it was
+			again = fmt.Sprintf(", %s, verif_out(built2, t(%d, %s, %s, %s))", strings.Join(bd.post, ", "), k, c02VarName(c02IdTA), c02VarName(c02IdTB), vsText)
+		}
+		q := fmt.Sprintf("catch((%s, verif_out(built, t(%d, %s, %s, %s))%s, c02_variant(%s, %d, %s)), E, verif_out(err, e(%d, E))), fail.",
+			strings.Join(goals, ", "), k, c02VarName(c02IdTA), c02VarName(c02IdTB), vsText, again, argText[0], k, strings.Join(argText[1:], ", "), k)
 		c.Inputs = append(c.Inputs, bd.inputs...)
 		c.Steps = append(c.Steps, proto.Step{Query: q})
 		used := map[string]int{}
@@ -1670,7 +1726,7 @@ func (c *c02) judgePair(m *c02Meta, o *run.Outcome) Verdict {
 		// collect this variant's events
 		obs := map[string]*c02Obs{}
 		dup := ""
-		built := (*term.Term)(nil)
+		built, built2 := (*term.Term)(nil), (*term.Term)(nil)
 		var verr *term.Term // error that ended this variant's run
 		for _, e := range st.Events {
 			if e.T == nil {
@@ -1680,6 +1736,11 @@ func (c *c02) judgePair(m *c02Meta, o *run.Outcome) Verdict {
 			case "built":
 				if e.T.IsCmp("t", 4) && e.T.Args[0].K == term.KInt && int(e.T.Args[0].I) == va.K {
 					built = e.T
+				}
+				continue
+			case "built2":
+				if e.T.IsCmp("t", 4) && e.T.Args[0].K == term.KInt && int(e.T.Args[0].I) == va.K {
+					built2 = e.T
 				}
 				continue
 			}
@@ -1732,6 +1793,19 @@ func (c *c02) judgePair(m *c02Meta, o *run.Outcome) Verdict {
 			if !term.VariantAll(got, want) {
 				inconclusive = fmt.Sprintf("constructor path built %s and %s instead of the intended pair | %s", built.Args[1], built.Args[2], va.Query)
 				v.Extra["builder_mismatch"]++
+				continue
+			}
+			if built2 != nil {
+				v.Extra["built_pairs_observed_again_after_more_appends"]++
+				got2Vs, _ := term.ListElems(built2.Args[3])
+				got2 := append([]*term.Term{built2.Args[1], built2.Args[2]}, got2Vs...)
+				if !term.VariantAll(got2, want) {
+					problems = append(problems, fmt.Sprintf("[%s] the built terms were %s and %s; after further append/3 goals on other variables (no goal unifies them with anything) they are %s and %s | %s",
+						va.Desc, built.Args[1], built.Args[2], built2.Args[1], built2.Args[2], va.Query))
+					continue
+				}
+			} else if strings.Contains(va.Query, "verif_out(built2,") {
+				problems = append(problems, fmt.Sprintf("[%s] the goals after the first observation of the built pair did not succeed (they only extend lists into fresh variables) | %s", va.Desc, va.Query))
 				continue
 			}
 		} else if st.Err != nil {
